@@ -45,10 +45,59 @@ Theorem C32_mismatch_detected_before_move : forall cur st e f st' lg ok f',
 Proof. exact mismatch_detected_before_move. Qed.
 Print Assumptions C32_mismatch_detected_before_move.
 
-(* PARTIAL. Not proved: C32_restore_success (on success every data directory holds exactly the extracted `common` and
-   revision trees, everything else untouched, backups gone after Cleanup). That statement is the executable predicate
-   Snapshot.success_all, which the check evaluates on the implementation's observed directories in every run
-   (monitor), i.e. it is tested, not proved. *)
+(* RESTORE, success half, for EVERY list of entries and every fuel: if Restore succeeds (optionally followed by Cleanup)
+   every data directory holds EXACTLY: the extracted `common` and revision trees (the latter under the current revision's
+   name), every other real name as before, under the backup names of `common` / the revision directory the old tree
+   that was moved aside (these are what Revert puts back, theorem above with a = ARevert) -- and nothing under any
+   backup name after Cleanup. expected_lookup is total: the statement fixes the content of every name. *)
+Theorem C32_restore_success : forall cur es f a,
+  wf_case cur es = true -> a <> ARevert ->
+  fst (restore cur es f a) = true ->
+  all_expected cur a es (snd (restore cur es f a)).
+Proof. exact restore_success. Qed.
+Print Assumptions C32_restore_success.
+
+(* the same, as the executable predicate the check evaluates on the implementation's observed directories *)
+Theorem C32_restore_success_monitor : forall cur es f a,
+  wf_case cur es = true -> a <> ARevert ->
+  fst (restore cur es f a) = true ->
+  success_all cur a es (snd (restore cur es f a)) = true.
+Proof. exact restore_success_monitor. Qed.
+Print Assumptions C32_restore_success_monitor.
+
+(* CHECK (Reader.Check, digest idealised as content identity): it succeeds iff every entry it looks at (all of them, or
+   with a user list: the non-user entries and the listed users') is present in the zip, reads without error, has the
+   size the zip header reports and the content whose digest is recorded *)
+Theorem C32_check_iff : forall users zs,
+  check users zs = true <->
+  forall z, In z zs -> selected users z = true ->
+    z_present z = true /\ z_read_ok z = true /\ z_read z = z_reported z /\ z_actual z = z_recorded z.
+Proof. exact check_iff. Qed.
+Print Assumptions C32_check_iff.
+
+(* IMPORT with contents and DUPLICATE member names, for every stream and every set of files already there: the writes go
+   to the same (inside) paths; each write stores overlay (content of that path after the earlier writes) (body): the file
+   is opened without O_TRUNC, so a later member with the same target overwrites the earlier one from offset 0 ... *)
+Theorem C32_import_writes_inside : forall sdir idb dirs fs ms export_found,
+  forallb (fun b => negb (b =? c_slash)) idb = true ->
+  forallb (strictly_below sdir) (map fst (fst (import_writes sdir idb dirs fs ms export_found))) = true.
+Proof. exact import_writes_inside. Qed.
+Print Assumptions C32_import_writes_inside.
+
+Theorem C32_import_duplicates_overlay : forall sdir idb dirs ms fs export_found,
+  writes_from fs (fst (import_writes sdir idb dirs fs ms export_found)).
+Proof. exact import_writes_overlay. Qed.
+Print Assumptions C32_import_duplicates_overlay.
+
+(* ... completely when it is at least as long; otherwise the tail of the earlier content survives behind the new body
+   (inside the snapshots directory only; such a file is then handed to Open/Check, which is outside this model) *)
+Theorem C32_overlay_shape : forall old data,
+  ((length old <= length data)%nat -> overlay old data = data) /\
+  firstn (length data) (overlay old data) = data /\
+  skipn (length data) (overlay old data) = skipn (length data) old /\
+  length (overlay old data) = Nat.max (length old) (length data).
+Proof. intros old data. split; [apply overlay_replaces | apply overlay_shape]. Qed.
+Print Assumptions C32_overlay_shape.
 
 (* ---- non-vacuity *)
 Definition ex_init : pstate := Some [(0, 10); (4, 11); (8, 12)].          (* common, rev 4, another directory *)
@@ -72,7 +121,17 @@ Proof. vm_compute. repeat split; reflexivity. Qed.
 (* import: `1_d/..` resolves to the snapshots directory itself (open fails, nothing written), `/etc_/passwd` lands inside *)
 Example C32_ex_import :
   let sdir := [[115]; [115;110]] in
-  import_run sdir [55] [] [{| m_name := [49;95;100;47;46;46]; m_kind := MFile |}] false = ([], false) /\
-  fst (import_run sdir [55] [sdir ++ [[55;95]]] [{| m_name := [47;101;116;99;95;47;112]; m_kind := MFile |}] false)
+  import_run sdir [55] [] [{| m_name := [49;95;100;47;46;46]; m_kind := MFile; m_body := [120] |}] false = ([], false) /\
+  fst (import_run sdir [55] [sdir ++ [[55;95]]] [{| m_name := [47;101;116;99;95;47;112]; m_kind := MFile; m_body := [120] |}] false)
     = [sdir ++ [[55;95]; [112]]].
 Proof. vm_compute. split; reflexivity. Qed.
+
+(* duplicates: second member shorter than the first -> new body then the tail of the first; Check on a wrong digest *)
+Example C32_ex_duplicates_and_check :
+  let sdir := [[115]] in
+  fst (import_writes sdir [55] [] [] [{| m_name := [49;95;97]; m_kind := MFile; m_body := [1;2;3] |};
+                                      {| m_name := [50;95;97]; m_kind := MFile; m_body := [9] |}] false)
+    = [([[115]; [55;95;97]], [1;2;3]); ([[115]; [55;95;97]], [9;2;3])] /\
+  check [] [{| z_user := None; z_present := true; z_read_ok := true; z_reported := 5; z_read := 5; z_actual := 1; z_recorded := 2 |}] = false /\
+  check [[117]] [{| z_user := Some [118]; z_present := false; z_read_ok := true; z_reported := 5; z_read := 5; z_actual := 1; z_recorded := 2 |}] = true.
+Proof. vm_compute. repeat split; reflexivity. Qed.
